@@ -1,7 +1,7 @@
 T = "GeomV.C08."
 CFG = {
     "id": "C08",
-    "lean_modules": ["GeomV.C08.Proofs", "GeomV.C08.ProofsConic", "GeomV.C08.ProofsTmerc"],
+    "lean_modules": ["GeomV.C08.Proofs", "GeomV.C08.ProofsConic", "GeomV.C08.ProofsTmerc", "GeomV.C08.ProofsGeodetic"],
     "exe": "geomv_c08",
     "go_cmd": "c08",
     "stages": ["go:gen", "go:impl", "lean:judge"],
@@ -12,7 +12,7 @@ CFG = {
         "C08_merc_ell_inv_of_converged", "C08_imlfn_fixed", "C08_imlfn_stationary", "C08_eqdc_inv_of_converged",
         "C08_tmerc_footpoint_fixed", "C08_aeaPhi1z_fixed", "C08_eqdc_sphere_inv", "C08_aea_sphere_inv",
         "C08_eqdc_sphere_inv_south", "C08_aea_sphere_inv_south", "lcc_chain", "C08_lcc_sphere_inv", "C08_lcc_inv_of_converged",
-        "aea_chain", "C08_aea_inv_of_converged", "C08_tmerc_sphere_inv"]],
+        "aea_chain", "C08_aea_inv_of_converged", "C08_tmerc_sphere_inv", "C08_geodetic_fixed", "C08_geodetic_roundtrip_h0"]],
     "trusted_base": [
         "Lean 4.33.0 kernel; axioms of every theorem printed by #print axioms must be within {propext, Classical.choice, Quot.sound}; Mathlib v4.33 modules imported by RealInst/Lemmas/Proofs are checked by the same kernel",
         "the generic model lean/GeomV/C08/{ProjCommon,ProjMerc,ProjLcc,ProjAea,ProjEqdc,ProjTmerc,ProjKrovak,ProjDatum,ProjPipeline}.lean is ONE definition per Go function; its Float instance is tied to /repo/proj by the correspondence run on every check (1e-9 relative on projected metres, 1e-12 rad on angles), its Real instance is what the theorems are about",
